@@ -44,6 +44,17 @@ func init() {
 			i.path.addPC(ts.BVCmp("bvslt", t.t, ts.BV(1<<62, 64)))
 			return mkTime(t)
 		},
+		// AnyTime(tag): an instant before or after the epoch, never the epoch
+		// itself (0 stands for the zero Time in the clock model)
+		vrt + "AnyTime": func(fr *frame, a []value) value {
+			i := fr.i
+			ts := i.ts()
+			t := i.fresh("int64", a[1].(string), types.Int64).(symv)
+			i.path.addPC(ts.BVCmp("bvslt", ts.BV(uint64(1<<64-1<<62), 64), t.t))
+			i.path.addPC(ts.BVCmp("bvslt", t.t, ts.BV(1<<62, 64)))
+			i.path.addPC(ts.Not(ts.Eq(t.t, ts.BV(0, 64))))
+			return mkTime(t)
+		},
 		vrt + "Advance": func(fr *frame, a []value) value { fr.i.world.Advance(a[1]); return nil },
 		vrt + "Duration": vrtDuration,
 		vrt + "Live":     func(fr *frame, a []value) value { return len(fr.i.liveGoroutines()) },
@@ -119,6 +130,10 @@ func init() {
 		"(time.Time).UnixNano": func(fr *frame, a []value) value { return timeNS(a[0]) },
 		"(time.Time).Unix":     timeUnix,
 		"(time.Time).Nanosecond": func(fr *frame, a []value) value {
+			if ns := timeNS(a[0]); isSym(ns) {
+				_, rem := fr.i.unixParts(ns)
+				return symv{rem.t, types.Int}
+			}
 			return int(concreteTime(a[0], "Nanosecond").Nanosecond())
 		},
 		"(time.Time).UTC":   func(fr *frame, a []value) value { return a[0] },
@@ -148,7 +163,9 @@ func init() {
 		"time.Unix": func(fr *frame, a []value) value {
 			sec, nsec := a[0], a[1]
 			if isSym(sec) || isSym(nsec) {
-				panic(engineError{"time.Unix with symbolic argument"})
+				// (overflow of sec*1e9 wraps here while the real Time saturates
+				// nothing either: instants outside +-292 years are outside the model)
+				return mkTime(binop(fr.i, tokenADD, nil, binop(fr.i, token.MUL, nil, sec, int64(1_000_000_000)), nsec))
 			}
 			return mkTime(sec.(int64)*1_000_000_000 + nsec.(int64))
 		},
@@ -424,27 +441,9 @@ func concreteTime(t value, what string) time.Time {
 func timeUnix(fr *frame, a []value) value {
 	ns := timeNS(a[0])
 	if isSym(ns) {
-		// Unix seconds of a symbolic instant: fresh sec, rem with
-		// ns = 1e9*sec + rem, 0 ≤ rem < 1e9, 0 ≤ sec < 2^33 (instants of the
-		// clock model are positive and < 2^62). Bit-blasting back ends stall
-		// on the multiplication; the integer back end (cvc5-int) decides it.
-		i := fr.i
-		ts := i.ts()
-		key := i.term(ns).id
-		if v, ok := i.world.unixCache[key]; ok {
-			return v
-		}
-		sec := symv{ts.Var(fmt.Sprintf("unixsec!%d", key), bvSort(64)), types.Int64}
-		rem := ts.Var(fmt.Sprintf("unixrem!%d", key), bvSort(64))
-		i.path.addPC(ts.BVCmp("bvsle", ts.BV(0, 64), sec.t))
-		i.path.addPC(ts.BVCmp("bvslt", sec.t, ts.BV(1<<33, 64)))
-		i.path.addPC(ts.BVCmp("bvsle", ts.BV(0, 64), rem))
-		i.path.addPC(ts.BVCmp("bvslt", rem, ts.BV(1_000_000_000, 64)))
-		i.path.addPC(ts.Eq(i.term(ns), ts.BVBin("bvadd", ts.BVBin("bvmul", sec.t, ts.BV(1_000_000_000, 64)), rem)))
-		if i.world.unixCache == nil {
-			i.world.unixCache = map[int]value{}
-		}
-		i.world.unixCache[key] = sec
+		// Bit-blasting back ends stall on the multiplication by 1e9; the
+		// integer back end (cvc5-int) decides it.
+		sec, _ := fr.i.unixParts(ns)
 		return sec
 	}
 	n := ns.(int64)
@@ -689,6 +688,9 @@ func fmtSprintf(fr *frame, a []value) value {
 	}
 	if f, ok := a[0].(string); ok && anySymstrArg(a[1]) {
 		return fr.i.symSprintf(f, a[1].([]value))
+	}
+	if f, ok := a[0].(string); ok && allDecimalVerbs(f) && anySymvArg(a[1]) {
+		return fr.i.symSprintf(f, a[1].([]value)) // decimal tokens (dectok.go)
 	}
 	args, sym := sprintfArgs(fr.i, a[1])
 	f, ok := a[0].(string)
